@@ -223,7 +223,7 @@ def run(prop, tier, seed):
             nd, nscen = S.run_scenarios({'C18': 'C16', 'C13': 'C12S'}.get(prop, prop), tier, seed, workdir)
             if prop == 'C18':           # the counters are also judged on every hostile-input run of the C10 driver
                 # ... and on the fault scenarios of C12 (socket option and handler callback failures)
-                for j, other in enumerate(('C10', 'C12S')):
+                for j, other in enumerate(('C10', 'C12S', 'C01')):
                     nd2, nscen2 = S.run_scenarios(other, tier, seed, workdir)
                     with open(nd, 'a') as fa, open(nd2) as fb:
                         for line in fb:
